@@ -175,6 +175,15 @@ def run(argv):
     for tag, d, be in (("p1", descs["upper"], None), ("p2", descs["default"], None), ("p2alone", descs["default"], None),
                        ("ice1", ice, {"GCO": 999.0}), ("ice2", ice, {}), ("ice2alone", ice, {})):
         make_cli_project(cli_root / tag, d, "proj", binding=be)
+    # a KROME file that is refused part-way (a species of an element the project does not list) must leave nothing behind for
+    # the next KROME network read in the same process
+    bad_krome = ("@common:user_leak1,user_leak2\n@var:leaky = 2.0*user_leak1\n@format:idx,R,R,R,P,P,P,P,Tmin,Tmax,rate\n"
+                 "1,H,E,,H+,E,E,,NONE,NONE,1.0d-10*user_leak1\n2,XE,E,,XE+,E,E,,NONE,NONE,1.0d-10*leaky\n")
+    bad = dict(descs["krome"], files=[[bad_krome, "krome"]])
+    jobs.append(("failed-read-then-krome", {"steps": [{"op": "build_may_fail", "id": "X", "desc": bad, "tag": ["krome-refused", "-"]},
+                                                      {"op": "build", "id": "B", "desc": descs["krome"]},
+                                                      {"op": "render", "id": "B", "backend": BACKENDS[0], "tag": ["krome", "dense"]}]}, 2))
+    jobs.append(("failed-read-alone", {"steps": [{"op": "build_may_fail", "id": "X", "desc": bad, "tag": ["krome-refused", "-"]}]}, 0))
     # the user binding-energy table is read when the code is generated: the same Network object rendered before and after the
     # table changes must give what a fresh build under the new table gives
     eb = {"GCO": 999.0}
